@@ -13,15 +13,15 @@ import (
 
 // PlanC06 interleaves application sends with every stage of handshake and teardown.
 type PlanC06 struct {
-	Role      string    `json:"role"`       // server: real ServerChannel vs scripted client; client: real ClientChannel vs scripted server
-	Conf      SrvConf   `json:"conf"`       // server role
-	Script    []Step    `json:"script"`     // server role: the scripted client's handshake (may inject data envelopes)
-	SScript   []SStep   `json:"sscript"`    // client role: the scripted server's answers
-	Senders   int       `json:"senders"`    // application tasks that keep sending
-	Attempts  int       `json:"attempts"`   // sends per task
-	GapMs     []int     `json:"gap_ms"`     // pauses between attempts, cycled
-	EndMode   int       `json:"end_mode"`   // 0 local finish/fail call, 1 peer-initiated end, 2 none
-	EndAtMs   int       `json:"end_at_ms"`  // when the end is triggered
+	Role      string    `json:"role"`        // server: real ServerChannel vs scripted client; client: real ClientChannel vs scripted server
+	Conf      SrvConf   `json:"conf"`        // server role
+	Script    []Step    `json:"script"`      // server role: the scripted client's handshake (may inject data envelopes)
+	SScript   []SStep   `json:"sscript"`     // client role: the scripted server's answers
+	Senders   int       `json:"senders"`     // application tasks that keep sending
+	Attempts  int       `json:"attempts"`    // sends per task
+	GapMs     []int     `json:"gap_ms"`      // pauses between attempts, cycled
+	EndMode   int       `json:"end_mode"`    // 0 local finish/fail call, 1 peer-initiated end, 2 none
+	EndAtMs   int       `json:"end_at_ms"`   // when the end is triggered
 	StepGapMs int       `json:"step_gap_ms"` // pause between handshake steps of the scripted peer
 	Faults    FaultSpec `json:"faults"`
 }
@@ -64,11 +64,11 @@ func genC06(t *simrt.Tape, tier string) interface{} {
 }
 
 type sendObs struct {
-	startAt      time.Duration
-	id           string
+	startAt       time.Duration
+	id            string
 	before, after string
-	err          error
-	startStep    int
+	err           error
+	startStep     int
 }
 
 func runC06(w *World, pi interface{}) {
@@ -129,7 +129,9 @@ func runC06(w *World, pi interface{}) {
 				h.Add(0, "local-end", nil, "", fmt.Sprint("FailSession: ", sch.FailSession(ctx, &lime.Reason{Code: 9, Description: "bye"})))
 			}
 		}
-		endPeer = func() { peer.SendJSON(map[string]interface{}{"state": "finishing", "id": fstr(peer.LastSessionFrame(), "id")}) }
+		endPeer = func() {
+			peer.SendJSON(map[string]interface{}{"state": "finishing", "id": fstr(peer.LastSessionFrame(), "id")})
+		}
 		ready.Set()
 		go func() {
 			steps := p.Script
